@@ -1356,3 +1356,135 @@ def orc_c04(case, obs):
 
 
 prop("C04", ["c04_attribution", "c04_sync", "c04_receiver_only"], ["SYS"], gen_c04, [orc_c04])
+
+
+# ------------------------------------------------------------------------------------------------
+# C03 only length- and CRC-verified PDUs are delivered (fault injection on fragment trains)
+# ------------------------------------------------------------------------------------------------
+def burst(rng, data, lo_bit, hi_bit, maxlen=32):
+    """flip a non-empty set of bits within a window of at most maxlen bits inside [lo_bit, hi_bit)"""
+    b = bytearray(data)
+    if hi_bit <= lo_bit:
+        return bytes(b)
+    start = rng.range(lo_bit, hi_bit - 1)
+    ln = rng.range(1, min(maxlen, hi_bit - start))
+    bits = [start] + [start + k for k in range(1, ln) if rng.chance(0.5)]
+    if ln > 1:
+        bits.append(start + ln - 1)
+    for k in set(bits):
+        b[k // 8] ^= 0x80 >> (k % 8)
+    return bytes(b)
+
+
+def gen_c03(rng, t):
+    out = []
+    for i in range(700 * t):
+        c = Case("c03_%d" % i)
+        slots = rng.choice([1, 2, 3])
+        maxpdu = 80
+        c.add("DNEW %d %d simple" % (slots, maxpdu))
+        for k in range(slots + 2):
+            c.add("DPROV %d" % (maxpdu + k))
+        fid = rng.below(256)
+        lab = rng.choice([L6A, L3A, "B"])
+        pl = rng.range(2, 60)
+        pdu = rng.bytes(pl)
+        nfr = rng.range(1, 4)
+        sizes, left = [], pl
+        for j in range(nfr):
+            lo = 0 if j == 0 else 1
+            if left - 1 < lo:
+                break
+            s = rng.range(lo, left - 1)
+            sizes.append(s)
+            left -= s
+        sizes = sizes or [0]
+        pt = rng.choice([0x0800, 0x86DD, 0xFFFF])
+        train = fragment(pdu, fid, pt, lab, sizes)
+        fault = rng.below(9)
+        seq = list(train)
+        protected_only = False
+        if fault == 0 and len(seq) > 2:
+            del seq[rng.range(1, len(seq) - 2)]                      # lose an intermediate fragment
+        elif fault == 1 and len(seq) > 2:
+            k = rng.range(1, len(seq) - 2)
+            seq.insert(k, seq[k])                                    # duplicate an intermediate fragment
+        elif fault == 2:
+            seq.append(seq[-1])                                      # duplicate the end fragment
+        elif fault == 3 and len(seq) > 2:
+            k = rng.range(1, len(seq) - 2)
+            seq[k], seq[k + 1] = seq[k + 1], seq[k]                  # swap
+        elif fault == 4:
+            k = rng.below(len(seq))
+            p = seq[k]
+            hdr = 3 if k > 0 else 5                                  # keep GSE header and frag id; total length is protected
+            seq[k] = burst(rng, p, hdr * 8 if k > 0 else 3 * 8, len(p) * 8)
+            protected_only = seq[k] != p
+        elif fault == 5:
+            k = rng.below(len(seq))
+            seq[k] = seq[k][:rng.range(0, len(seq[k]) - 1)]          # truncation
+        elif fault == 6:
+            k = rng.below(len(seq))
+            seq[k] = mutate(rng, seq[k])
+        elif fault == 7:
+            other = fragment(rng.bytes(pl), fid, pt, lab, sizes)     # splice another train of the same id
+            k = rng.range(1, len(seq) - 1) if len(seq) > 1 else 0
+            seq = seq[:k] + other[k:]
+        for p in seq:
+            c.add("DECAP %s" % hx(p))
+        c.meta["c03"] = {"pdu": hx(pdu), "burst": protected_only, "ptype": pt}
+        out.append(c)
+    return out
+
+
+def orc_c03(case, obs):
+    """history oracle: per frag id, payloads in arrival order since the most recent accepted first fragment"""
+    bad = []
+    if not (case.meta.get("c03") or case.name.startswith("DEC.")):
+        return bad
+    trains = {}
+    for op, ob in zip(case.ops, obs):
+        t = op.split(" ")
+        if t[0] == "DNEW":
+            trains = {}
+            continue
+        if t[0] != "DECAP":
+            continue
+        p = parse_packet(tok_bytes(t[1]), KNOWN_EXT_FIXED)
+        if isinstance(p, str):
+            continue
+        w, d = kv(ob)
+        okf = w[:2] == ["ok", "fragmented"]
+        if p.kind == "F":
+            if okf:
+                trains[p.fid] = {"total": p.total, "ptype": int(d["ptype"]), "label": d["label"], "wire_ll": LT_LEN[p.lt],
+                                 "crc_label": b"" if p.lt == 3 else label_bytes(p.label), "ps": [bytes(p.payload)]}
+        elif p.kind == "I":
+            if okf and p.fid in trains:
+                trains[p.fid]["ps"].append(bytes(p.payload))
+            elif len(p.payload) >= 1:
+                trains.pop(p.fid, None)
+        elif p.kind == "E" and p.gse_len >= 5:
+            tr = trains.pop(p.fid, None)
+            if w[:2] == ["ok", "completed"]:
+                if tr is None:
+                    bad.append("PDU delivered at an end fragment of id %d without an accepted first fragment" % p.fid)
+                    continue
+                P = b"".join(tr["ps"]) + bytes(p.payload)
+                if len(P) + 2 + tr["wire_ll"] != tr["total"]:
+                    bad.append("delivered %d bytes, first fragment announced total length %d" % (len(P), tr["total"]))
+                if gse_crc(P, tr["ptype"], tr["total"], tr["crc_label"]) != p.crc:
+                    bad.append("delivered PDU whose CRC-32 differs from the trailer")
+                if d["data"] != hx(P) or int(d["pdulen"]) != len(P):
+                    bad.append("delivered bytes are not the concatenation of the received payloads")
+                if int(d["ptype"]) != tr["ptype"] or d["label"] != tr["label"]:
+                    bad.append("delivered metadata differ from the first fragment's")
+    m = case.meta.get("c03")
+    if m and m["burst"]:
+        for ob in obs:
+            if ob.startswith("ok completed") and kv(ob)[1].get("data") != m["pdu"]:
+                bad.append("a burst of <= 32 bits in the protected bytes yielded a different delivered PDU")
+    return bad
+
+
+prop("C03", ["c03_history_invariant", "c03_verified_only", "c03_train_opened", "c03_length_exact"], ["DEC"], gen_c03, [orc_c03])
